@@ -56,7 +56,18 @@ def case_strategy(draw):
             'bases': draw(st.lists(st.integers(0, c - 1), max_size=2,
                                    unique=True)) if c else [],
             'declared': draw(st.lists(st.integers(0, nif - 1), max_size=3)),
-            'only': draw(st.integers(0, 5)) == 0})
+            'only': draw(st.integers(0, 5)) == 0,
+            # the *only* form given a declaration object first (the
+            # documented idiom implementer_only(implementedBy(Base) - IA,
+            # IC)): the object is kept as one base of the class
+            # specification (seed C20g).  ['decl', [i...]] or
+            # ['minus', class, i]
+            'only_decl': draw(st.one_of(
+                st.none(), st.none(),
+                st.tuples(st.just('decl'), st.lists(
+                    st.integers(0, nif - 1), max_size=3)).map(list),
+                st.tuples(st.just('minus'), st.integers(0, 3),
+                          st.integers(0, nif - 1)).map(list)))})
     nd = draw(st.integers(2, 4))
     decls = [[draw(term(nif, ncls, 0))
               for _ in range(draw(st.integers(0, 4)))] for _ in range(nd)]
@@ -115,7 +126,21 @@ def run_case(case, cfg, out):
         if kept != len(spec['bases']):
             out.adjusted += 1
         inherited = _dedupe([x for b in cbases for x in spec_iter[b]])
-        if spec['only']:
+        od = spec.get('only_decl')
+        if od is not None and (od[0] == 'decl' or c > 0):
+            if od[0] == 'decl':
+                first = Declaration(*[ifaces[i] for i in od[1]])
+                mfirst = _dedupe(od[1])
+            else:
+                b = od[1] % c
+                first = implementedBy(classes[b]) - ifaces[od[2]]
+                mfirst = [x for x in spec_iter[b] if not ext(x, od[2])]
+            classImplementsOnly(cls, first,
+                                *[ifaces[i] for i in spec['declared']])
+            declared = _dedupe(mfirst + spec['declared'])
+            inherited = []
+            out.tag('only_with_declaration_object')
+        elif spec['only']:
             classImplementsOnly(cls, *[ifaces[i] for i in spec['declared']])
             declared = _dedupe(spec['declared'])
             inherited = []
